@@ -138,6 +138,8 @@ def el_case(idx):
            'counters': common.run_counters(ev), 'outcomes': {}, 'faults_fired': {'poison': 1},
            'probes': dict(ev.res.probes) if ev.res is not None else {}, 'max': {}}
     res['counters']['element_matrix'] = 1
+    if idx == 0:
+        res['sample'] = dict(common.sample_of(p, argv, ev, 900), job=f'element-store matrix {job}')
     res['outcomes'][f'ref:{ev.ref.outcome}'] = 1
     res['digest'] = digest(res['key'], ev.res.history if ev.res is not None else None, [f[:2] for f in found])
     if found:
@@ -162,6 +164,8 @@ def as_case(k):
            'counters': common.run_counters(ev), 'outcomes': {}, 'faults_fired': {},
            'probes': dict(ev.res.probes) if ev.res is not None else {}, 'max': {}}
     res['counters']['assignment_matrix'] = 1
+    if k == 0:
+        res['sample'] = dict(common.sample_of(p, argv, ev, 900), job=f'assignment matrix {job}')
     res['outcomes'][f'ref:{ev.ref.outcome}'] = 1
     res['digest'] = digest(res['key'], ev.res.history if ev.res is not None else None, [f[:2] for f in found])
     if found:
